@@ -398,26 +398,32 @@ func runExtras(c *core.Ctx, drvPath string, env envCfg, items []xItem) ([]jObs, 
 	if env.Net == "unix" {
 		env.Dir = sockDir(c)
 	}
-	cases := make([]jCase, len(items))
-	for i := range items {
-		cases[i] = items[i].j
-	}
-	var resp struct {
-		Error string `json:"error"`
-		Panic string `json:"panic"`
-		Obs   []jObs `json:"obs"`
-	}
-	if err := d.p.Call(map[string]any{"op": "extras", "env": env, "cases": cases}, &resp); err != nil {
-		return nil, "", err
-	}
-	if resp.Error != "" || resp.Panic != "" {
-		return nil, "", fmt.Errorf("driver extras: %s%s", resp.Error, resp.Panic)
-	}
-	if len(resp.Obs) != len(items) {
-		return nil, "", fmt.Errorf("driver returned %d observations for %d cases", len(resp.Obs), len(items))
+	// batches keep every driver call well below its watchdog; server and client are re-created per batch
+	var all []jObs
+	for k := 0; k < len(items); k += 4000 {
+		part := items[k:min(k+4000, len(items))]
+		cases := make([]jCase, len(part))
+		for i := range part {
+			cases[i] = part[i].j
+		}
+		var resp struct {
+			Error string `json:"error"`
+			Panic string `json:"panic"`
+			Obs   []jObs `json:"obs"`
+		}
+		if err := d.p.Call(map[string]any{"op": "extras", "env": env, "cases": cases}, &resp); err != nil {
+			return nil, "", err
+		}
+		if resp.Error != "" || resp.Panic != "" {
+			return nil, "", fmt.Errorf("driver extras: %s%s", resp.Error, resp.Panic)
+		}
+		if len(resp.Obs) != len(part) {
+			return nil, "", fmt.Errorf("driver returned %d observations for %d cases", len(resp.Obs), len(part))
+		}
+		all = append(all, resp.Obs...)
 	}
 	_, race := d.raceReport()
-	return resp.Obs, race, nil
+	return all, race, nil
 }
 
 // obsAtoms expresses an observation in the atoms of the specification (for TraceRpcExtras).
@@ -603,10 +609,20 @@ func runC40(c *core.Ctx) error {
 	mismatches := 0 // every mismatch is re-run in a fresh driver process: stop after a few
 	var firstObs []jObs
 	for ei, env := range envs {
+		// the first environment replays every case; with very many cases the others replay every 6th
+		items := items
+		if ei > 0 && len(items) > 20000 {
+			var sub []xItem
+			for i := ei; i < len(items); i += 6 {
+				sub = append(sub, items[i])
+			}
+			items = sub
+		}
 		obs, race, err := runExtras(c, drvPath, env, items)
 		if err != nil {
 			return err
 		}
+		c.Logf("extras %s: %d round trips", env.name(), len(items))
 		if ei == 0 {
 			firstObs = obs
 		}
